@@ -1,11 +1,12 @@
 package interp
 
 import (
+	"go/types"
+
 	"github.com/klauspost/compress/s2"
 	"github.com/pckhoi/meow"
 )
 
-type nativeDigest struct{ d *meow.Digest }
 
 func toBytes(v value) []byte {
 	x := v.([]value)
@@ -24,42 +25,105 @@ func fromBytes(b []byte) []value {
 	return r
 }
 
+// ---- meow hash: native on concrete input, injective uninterpreted function on symbolic input ----
+
+type hashCall struct {
+	seed uint64
+	data []value // bytes (concrete or symbolic)
+	out  []value // 16 bytes
+}
+
+// symHash returns the 16-byte checksum of data. Concrete data is hashed natively.
+// Symbolic data gets 16 fresh symbolic bytes constrained to be an injective
+// function of the input with respect to every other hash computed on this path:
+// equal inputs <=> equal outputs (assumption: meow does not collide).
+func (i *interpreter) symHash(seed uint64, data []value) []value {
+	s := i.s
+	var out []value
+	if !anySym(data) {
+		// concrete input: the real hash. (Symbolic outputs live in a tagged subspace, see
+		// below, so they can never equal a real hash unless its last 8 bytes are the tag.)
+		sum := meow.Checksum(seed, toBytes(data))
+		return fromBytes(sum[:])
+	}
+	// symbolic input: 8 free symbolic bytes followed by a constant 8-byte tag. The free
+	// leading bytes leave the order relative to every other hash open; the tag makes the
+	// value differ from every real hash without pairwise constraints.
+	out = make([]value, 16)
+	for k := 0; k < 8; k++ {
+		out[k] = i.nondet("meow", types.Uint8)
+	}
+	for k, c := range []byte("gosymUF!") {
+		out[8+k] = c
+	}
+	cp := make([]value, len(data))
+	copy(cp, data)
+	for _, h := range i.sc.hashes {
+		var eqIn *Term
+		if h.seed != seed || len(h.data) != len(data) {
+			eqIn = s.constT(0, 0)
+		} else {
+			eqIn = s.constT(0, 1)
+			for k := range data {
+				eqIn = s.and(eqIn, s.mk("=", 0, s.byteT(data[k]), s.byteT(h.data[k])))
+			}
+		}
+		eqOut := s.constT(0, 1)
+		for k := 0; k < 8; k++ {
+			eqOut = s.and(eqOut, s.mk("=", 0, s.byteT(out[k]), s.byteT(h.out[k])))
+		}
+		s.assert(s.mk("=", 0, eqIn, eqOut))
+	}
+	i.sc.hashes = append(i.sc.hashes, hashCall{seed, cp, out})
+	if s.vector == nil && !s.needModel() {
+		panic(pathInfeasible{})
+	}
+	return out
+}
+
+type nativeDigest struct {
+	seed uint64
+	data []value
+}
+
 func init() {
 	externals["github.com/pckhoi/meow.Checksum"] = func(fr *frame, a []value) value {
-		sum := meow.Checksum(asUint64(a[0]), toBytes(a[1]))
+		out := fr.i.symHash(asUint64(a[0]), a[1].([]value))
 		arr := make(array, 16)
-		for i := range arr {
-			arr[i] = sum[i]
-		}
+		copy(arr, out)
 		return arr
 	}
 	externals["github.com/pckhoi/meow.New"] = func(fr *frame, a []value) value {
-		return &nativeDigest{meow.New(asUint64(a[0]))}
+		return &nativeDigest{seed: asUint64(a[0])}
 	}
 	externals["(*github.com/pckhoi/meow.Digest).Reset"] = func(fr *frame, a []value) value {
-		a[0].(*nativeDigest).d.Reset()
+		a[0].(*nativeDigest).data = nil
 		return nil
 	}
 	externals["(*github.com/pckhoi/meow.Digest).Write"] = func(fr *frame, a []value) value {
-		n, _ := a[0].(*nativeDigest).d.Write(toBytes(a[1]))
-		return tuple{n, iface{}}
+		d := a[0].(*nativeDigest)
+		b := a[1].([]value)
+		d.data = append(d.data, b...)
+		return tuple{len(b), iface{}}
 	}
 	externals["(*github.com/pckhoi/meow.Digest).Sum"] = func(fr *frame, a []value) value {
-		var in []byte
-		if a[1].([]value) != nil {
-			in = toBytes(a[1])
+		d := a[0].(*nativeDigest)
+		out := fr.i.symHash(d.seed, d.data)
+		var in []value
+		if x, ok := a[1].([]value); ok {
+			in = x
 		}
-		return fromBytes(a[0].(*nativeDigest).d.Sum(in))
+		return append(append([]value{}, in...), out...)
 	}
 	externals["(*github.com/pckhoi/meow.Digest).SumTo"] = func(fr *frame, a []value) value {
+		d := a[0].(*nativeDigest)
+		out := fr.i.symHash(d.seed, d.data)
 		dst := a[1].([]value)
-		b := make([]byte, len(dst))
-		a[0].(*nativeDigest).d.SumTo(b)
-		for i := range b {
-			dst[i] = b[i]
-		}
+		copy(dst, out)
 		return nil
 	}
+	externals["(*github.com/pckhoi/meow.Digest).Size"] = func(fr *frame, a []value) value { return 16 }
+	externals["(*github.com/pckhoi/meow.Digest).BlockSize"] = func(fr *frame, a []value) value { return 256 }
 	externals["github.com/klauspost/compress/s2.EncodeBetter"] = func(fr *frame, a []value) value {
 		src := a[1].([]value)
 		if anySym(src) {
